@@ -1,7 +1,7 @@
 (* C18 — backtrace: held back, then the most recent N replayed once, in order.
    This file holds only the property theorems (each closed by [exact]) and their assumptions. *)
 From Coq Require Import List NArith.
-From Quill Require Import BT.BTModel BT.BTProofs.
+From Quill Require Import BT.BTModel BT.BTProofs Queue.BQDefs Backend.BEDefs Backend.BEDispatch Backend.BEFault Backend.BEBt.
 Import ListNotations.
 
 (* the configuration the model is run with in the correspondence check (the fixed tree) *)
@@ -10,22 +10,59 @@ Definition bt_cfg_fixed := {| reset_index_in_process := true; cap0_guard := true
 (* For every capacity and every history of store / flush / re-initialisation, the callbacks the
    storage issues are exactly: nothing on store, and on a flush the most recent min(cap, stored
    since the previous flush) events, oldest first, once; never an out-of-bounds access. *)
-Theorem C18_bt_refines : forall ops,
+Theorem C18_bt_refines : forall (A : Type) (ops : list (bop A)),
   bt_run bt_cfg_fixed bt_init ops = map (map Some) (spec_run spec_init ops).
-Proof. exact (bt_refines bt_cfg_fixed eq_refl). Qed.
+Proof. exact (fun A => bt_refines A bt_cfg_fixed eq_refl). Qed.
 Print Assumptions C18_bt_refines.
 
-Theorem C18_flush_emits_most_recent : forall sp,
+Theorem C18_flush_emits_most_recent : forall (A : Type) (sp : btspec A),
   snd (spec_step sp Process) = lastn (scap sp) (recent sp) /\
   length (snd (spec_step sp Process)) = Nat.min (scap sp) (length (recent sp)) /\
   recent (fst (spec_step sp Process)) = [].
 Proof. exact spec_process_emits. Qed.
 Print Assumptions C18_flush_emits_most_recent.
 
-Theorem C18_replayed_once : forall sp,
+Theorem C18_replayed_once : forall (A : Type) (sp : btspec A),
   snd (spec_step (fst (spec_step sp Process)) Process) = [].
 Proof. exact spec_process_twice. Qed.
 Print Assumptions C18_replayed_once.
+
+(* ---- backend level: every access of the backend to a logger's storage is one of the three operations
+   above, at the right moment, so C18_bt_refines applies to each logger's storage for every history *)
+Theorem C18_held_back : forall K s e, ekind e = KLog -> elvl e = LV_BACKTRACE ->
+  let s' := process_event K s e in
+  sk s' = sk s /\
+  match lbt (lg s (elg e)) with
+  | Some b => obs s' = obs s /\ lbt (lg s' (elg e)) = Some (fst (store (c_bt K) e b))
+  | None => obs s' = obs s ++ [O_NOTE; 6; 0]%N /\ lg s' = lg s
+  end.
+Proof. exact bt_held_back. Qed.
+Print Assumptions C18_held_back.
+
+Theorem C18_replay_after_trigger : forall K s e, ekind e = KLog -> elvl e <> LV_BACKTRACE ->
+  let d := dispatch s e (lsinks (lg s (elg e))) in
+  process_event K s e =
+    if snd d then add_obs (fst d) [O_NOTE; 5; 0]%N
+    else if (lbtlvl (lg (fst d) (elg e)) <=? elvl e)%N
+         then (let r := replay_bt K (fst d) (elg e) in if snd r then add_obs (fst r) [O_NOTE; 5; 0]%N else fst r)
+         else fst d.
+Proof. exact bt_trigger_after_statement. Qed.
+Print Assumptions C18_replay_after_trigger.
+
+Theorem C18_flush_replays_process_output : forall K s e b, ekind e = KFlushBt -> lbt (lg s (elg e)) = Some b -> c_bt_catch K = true ->
+  process_event K s e = set_lg (fst (replay_events K s (lsinks (lg s (elg e))) (snd (process (c_bt K) b))))
+                               (upd (lg (fst (replay_events K s (lsinks (lg s (elg e))) (snd (process (c_bt K) b))))) (elg e)
+                                    (set_lbt (lg (fst (replay_events K s (lsinks (lg s (elg e))) (snd (process (c_bt K) b)))) (elg e))
+                                             (Some (fst (process (c_bt K) b))))).
+Proof. exact bt_flush_event. Qed.
+Print Assumptions C18_flush_replays_process_output.
+
+Theorem C18_init_sets_capacity : forall K s e cap fl, ekind e = KInitBt cap fl ->
+  lbt (lg (process_event K s e) (elg e)) =
+    Some (fst (set_capacity cap (match lbt (lg s (elg e)) with Some b => b | None => bt_init end))) /\
+  obs (process_event K s e) = obs s.
+Proof. exact bt_init_event. Qed.
+Print Assumptions C18_init_sets_capacity.
 
 (* the two defects found on the pinned tree, as refutations of the unfixed configurations *)
 Theorem C18_refuted_without_index_reset :
